@@ -116,10 +116,11 @@ class Tracker:
         self.pool = pool  # same_object steps: objects built by earlier calls of the step, by (tag, build key)
         self.pooled = 0
 
-    def obj(self, tag: str, key: Any, build: Callable[[], Any], name: str = ""):
+    def obj(self, tag: str, key: Any, build: Callable[[], Any], name: str = "", snapshot: bool = True):
         """An OBJECT argument (parsed / constructed through the library): built by ``build()`` - or, inside a same_object step,
         the very object an earlier call of the step built for the same (tag, key).  Its full attribute tree (recursive,
-        buffers by content) is snapshotted now and compared after the call."""
+        buffers by content) is snapshotted now and compared after the call (snapshot=False: the object is the *receiver* of
+        the methods under test, whose private lazy memo fields are its own business; only the results are compared)."""
         k = tag + "|" + json.dumps(key, sort_keys=True)
         if self.pool is not None and k in self.pool:
             o = self.pool[k]
@@ -128,7 +129,8 @@ class Tracker:
             o = build()
             if self.pool is not None:
                 self.pool[k] = o
-        self.objects.append((name or tag, o, obs(o)))
+        if snapshot:
+            self.objects.append((name or tag, o, obs(o)))
         return o
 
     def changed_objects(self) -> List[dict]:
